@@ -1,6 +1,7 @@
 (** C04 — Stream failures: resubscribe, per-stream nonces, cache kept, clean stop.
     Statements only; proofs are [exact] of lemmas in Proofs/SysProofs.v. *)
 From Xds Require Import Model.Base Model.Fqdn Model.Proto Model.Decode Model.Pick Model.Route Model.Mw Model.Sys Proofs.SysProofs.
+From Xds Require Import Model.DecodeCheck Model.SysCheck Proofs.WireProofs.
 Open Scope string_scope.
 
 (** After a non-authentication Recv failure a new stream is opened and every subscribed type - and only those -
@@ -50,3 +51,12 @@ Theorem C04_lookups_always_return : forall s t n,
   match snd (lookup s t n) with LHit _ | LMiss => True | _ => False end.
 Proof. exact lookup_returns. Qed.
 Print Assumptions C04_lookups_always_return.
+
+(** NONCES OVER HISTORIES.  [runw] also logs every response received as (stream, nonce).  Every request ever sent, on any
+    stream, after any history, carries an empty nonce or a nonce that a response delivered on the very stream the request
+    is sent on: a nonce never crosses a reconnect. *)
+Theorem C04_nonces_stay_on_their_stream : forall c o h,
+  let '(s, sent, rcvd) := runw c o init_state h [] [] in
+  forall i q, In (i, q) sent -> q_nonce q = "" \/ In (i, q_nonce q) rcvd.
+Proof. exact nonces_stay_on_their_stream. Qed.
+Print Assumptions C04_nonces_stay_on_their_stream.
